@@ -25,7 +25,7 @@ CONSTANTS BookInit,   \* the resolved book of the exhaustive configurations: [fo
           Foods,      \* names that can be logged
           Qtys,       \* quantities that can be logged
           MaxEntries, \* entries per day
-          Day2Set,    \* the second day is drawn from this set of entry lists (plus "no second day")
+          Day2Set,    \* the second day, if any, is drawn from this (non-empty) set of entry lists
           Element,    \* the element of the single-element reports
           Dump
 
@@ -138,13 +138,11 @@ BalSingleAdd(t, day) == t + SumSeq(LET cs == SelectSeq(Contribs(Merge(day.es)), 
 
 -----------------------------------------------------------------------------
 EntryLists == UNION {[1..n -> Foods \X Qtys] : n \in 0..MaxEntries}
-NoSecondDay == <<"none">>
-
 Init ==
   /\ Book = BookInit
-  /\ \E e1 \in EntryLists, e2 \in Day2Set \cup {NoSecondDay} :
-        log = IF e2 = NoSecondDay THEN << [date |-> 1, es |-> e1] >>
-              ELSE << [date |-> 1, es |-> e1], [date |-> 2, es |-> e2] >>
+  /\ \E e1 \in EntryLists, two \in BOOLEAN, e2 \in Day2Set :
+        log = IF two THEN << [date |-> 1, es |-> e1], [date |-> 2, es |-> e2] >>
+              ELSE << [date |-> 1, es |-> e1] >>
   /\ d = 0 /\ reg = <<>> /\ csvlog = <<>> /\ single = <<>> /\ food = <<>>
   /\ totAcc = EmptyAcc /\ qtyAcc = [x \in {} |-> 0] /\ byFood = EmptyAcc /\ unres = {} /\ balTotal = 0
   /\ flushed = FALSE
